@@ -1123,11 +1123,18 @@ func (c *Ctx) c07Batch(b BK) {
 		}
 		nIter := 0
 		bad := false
+		instantReported := false
 		for _, p := range run.paths {
 			var startTS *pw.Val
 			for _, ev := range p.Events {
 				if ev.Kind == pw.EvCall && ev.Role == "Std:time.Time.UnixNano" && startTS == nil {
 					startTS = ev.Results[0]
+					// "marks every entry as expired": the instant is now — the clock as read by this call, not a time derived
+					// from it (now + a grace period from the context leaves the entries fresh)
+					if s.op == "ExpireAll" && !(ev.Recv != nil && ev.Recv.Kind == pw.KCall && ev.Recv.Ev != nil && ev.Recv.Ev.Role == "Std:time.Now") && !instantReported {
+						instantReported = true
+						r.Bad("R07.4", op, "expire-instant-not-now", c.Pos(ev.Pos), "the expiry ExpireAll stamps is not the UnixNano of time.Now() itself: entries are not expired when the call returns", shortTrace(p))
+					}
 				}
 			}
 			for _, g := range iterations(p) {
